@@ -59,32 +59,30 @@ structure Vendor where
   orderedDiff : String := "common.ordered_diff"
   deriving Repr, Inhabited
 
+/-- split compiled rules into the "local" and "global" dictionaries -/
+def splitLG (all : List (PRule × Bool)) : PRules :=
+  ⟨(all.filter (!·.2)).map (·.1), (all.filter (·.2)).map (·.1)⟩
+
 mutual
-  /-- `_compile_patching(tree, reverse_prefix, vendor)`; duplicate raw rules cannot occur (dict keys) -/
-  def compileP (v : Vendor) : List RawP → PRules
-    | rs =>
-      let all := compilePList v rs
-      ⟨(all.filter (!·.2)).map (·.1), (all.filter (·.2)).map (·.1)⟩
   def compilePList (v : Vendor) : List RawP → List (PRule × Bool)
     | [] => []
-    | .mk raw row ign g logic dlogic ord rew parent fc ch :: rest =>
-      let r : PRule :=
-        if ign then
-          -- ignore rules: children = {"global": {}, "local": {}}
-          .mk raw true { row := row, logic := "", diffLogic := dlogic, parent := !ch.isEmpty, forceCommit := false }
-            (some ([], []))
-        else
-          let (dl, lg) :=
-            if ord then (v.orderedDiff, "common.ordered")
-            else if rew then ("common.rewrite_diff", "common.rewrite")
-            else (dlogic, logic)
-          let kids : Option (List PRule × List PRule) :=
-            if g then none else
-              let c := compileP v ch
-              some (c.loc, c.glob)
-          .mk raw false { row := row, logic := lg, diffLogic := dl, parent := parent || !ch.isEmpty, forceCommit := fc } kids
-      (r, g) :: compilePList v rest
+    | r :: rest => compileRule v r :: compilePList v rest
+  /-- one rule of `_compile_patching`, and whether it goes to the "global" dictionary -/
+  def compileRule (v : Vendor) : RawP → PRule × Bool
+    | .mk raw row ign g logic dlogic ord rew parent fc ch =>
+      if ign then
+        -- ignore rules: children = {"global": {}, "local": {}}
+        (.mk raw true { row := row, logic := "", diffLogic := dlogic, parent := !ch.isEmpty, forceCommit := false }
+          (some ([], [])), g)
+      else
+        let dl := if ord then v.orderedDiff else if rew then "common.rewrite_diff" else dlogic
+        let lg := if ord then "common.ordered" else if rew then "common.rewrite" else logic
+        (.mk raw false { row := row, logic := lg, diffLogic := dl, parent := parent || !ch.isEmpty, forceCommit := fc }
+          (if g then none else some ((splitLG (compilePList v ch)).loc, (splitLG (compilePList v ch)).glob)), g)
 end
+
+/-- `_compile_patching(tree, reverse_prefix, vendor)`; duplicate raw rules cannot occur (dict keys) -/
+def compileP (v : Vendor) (rs : List RawP) : PRules := splitLG (compilePList v rs)
 
 /-! `merge_dicts` on dictionaries `raw_rule → rule` (used by `_select_match`).  Two rules under the
 same raw rule text have the same row and params; they may differ in `parent` and children. -/
@@ -198,8 +196,12 @@ mutual
   /-- `_compile_ordering`: only rules of type "normal" are kept -/
   def compileO : List RawO → List ORule
     | [] => []
-    | .mk raw row normal orev g scope ch :: rest =>
-      if normal then .mk raw row orev g scope (compileO ch) :: compileO rest else compileO rest
+    | r :: rest =>
+      match compileORule r with
+      | some o => o :: compileO rest
+      | none => compileO rest
+  def compileORule : RawO → Option ORule
+    | .mk raw row normal orev g scope ch => if normal then some (.mk raw row orev g scope (compileO ch)) else none
 end
 
 end Annet.Rules
